@@ -184,7 +184,7 @@ func run(sc kit.Scenario, out *kit.Out) error {
 
 	base := [maxPeers + 1]int{}
 	netName := "up"
-	out.Begin(sc.Scn, kit.Ev{"mode": mode, "T": T, "res_us": int(res / time.Microsecond), "fail": st.fail,
+	out.Begin(sc.Scn, kit.Ev{"mode": mode, "T": T, "res_us": resUS(mode, res), "fail": st.fail,
 		"s0": int(b.VerifSequence()), "s1": int(b.VerifSequence()), "st": project(b)})
 	for _, op := range sc.Ops {
 		name := kit.Str(op, "op")
@@ -302,4 +302,12 @@ func main() {
 		}
 		return nil
 	})
+}
+
+// resUS is the resolution in microseconds as logged (1 in det mode: a day does not fit TLC's integers).
+func resUS(mode string, res time.Duration) int {
+	if mode == "det" {
+		return 1
+	}
+	return int(res / time.Microsecond)
 }
